@@ -26,7 +26,8 @@ ASSUMPTIONS = ["the eager dense matrix is the reference for the lazy one (C05 de
 BASIS = ["rbf", "matern_ard", "scale_rbf", "sum_ad", "prod", "periodic", "multitask", "rbfgrad", "rq", "rbfgrad_ard", "linear_ard", "kiss", "indexk", "hamming"]
 DISCRETE = ("indexk", "hamming")
 TRIPLES = [((), (), ()), ((2,), (2,), (2,)), ((), (2,), (2,)), ((2,), (), ()), ((), (2,), ()), ((2,), (1,), (2,)), ((2, 1), (1, 3), (2, 3)),
-           ((), (1, 3), (2, 1)), ((3,), (2, 3), (3,)), ((2,), (2,), ())]
+           ((), (1, 3), (2, 1)), ((3,), (2, 3), (3,)), ((2,), (2,), ()),
+           ((3,), (), ())]   # as many kernel batch members as points (n1 = 3): a b x n table of diagonals has the shape of an n x n matrix
 D = 3
 
 
